@@ -1,8 +1,8 @@
 CONSTANT Tier = "thorough"
-CONSTANT Mode = "bfs"
+CONSTANT Mode = "inv"
 INIT Init
 NEXT Next
-INVARIANT Emit
+INVARIANT PeekInv
+INVARIANT AtEndInv
 INVARIANT WfInv
 INVARIANT PosInv
-INVARIANT RoundTripInv
